@@ -170,7 +170,9 @@ func (t *InternalTransport) runReceive() {
 			return
 		}
 
-		if len(frame) > defn.MaxNDNPacketSize {
+		// The limit of a frame, as in sendFrame: Send adds the NDNLPv2 headers (PIT token,
+		// next hop face id) to a packet of up to the maximum packet size
+		if len(frame) > t.MTU() {
 			core.LogWarn(t, "Component trying to send too much data - DROP")
 			continue
 		}
